@@ -563,6 +563,14 @@ class Interp:
                         return a & b
                     if isinstance(op, ast.BitOr):
                         return a | b
+                    if isinstance(op, ast.BitXor):
+                        return a ^ b
+                    if isinstance(op, ast.LShift) and 0 <= b <= 64:
+                        return a << b
+                    if isinstance(op, ast.RShift) and 0 <= b <= 64:
+                        return a >> b
+                    if isinstance(op, ast.Pow) and 0 <= b <= 64:
+                        return a ** b
                     if isinstance(op, ast.FloorDiv):
                         return a // b
                     if isinstance(op, ast.Mod):
@@ -599,6 +607,11 @@ class Interp:
                 return self.ev(r[2], {}, r[1], None, '%s.%s' % (r[1].name, name))
             if r[0] == 'module':
                 return Opaque('module ' + r[1].name)
+        tree = getattr(mod, 'tree', None)
+        if tree is not None:
+            for st in tree.body:
+                if isinstance(st, ast.AnnAssign) and isinstance(st.target, ast.Name) and st.target.id == name and st.value is not None:
+                    return self.ev(st.value, {}, mod, None, '%s.%s' % (mod.name, name))
         if name in BUILTINS:
             return Hook(lambda args, kwargs, f=BUILTINS[name]: f(*args, **kwargs))
         raise AnalysisError('%s: name %s cannot be resolved' % (w, name))
@@ -2116,19 +2129,27 @@ def init_analysis(rt, rc, fn, owner):
             if not guards:
                 res['problems'].append('super().__init__ is reached without a test of `%s`' % opt_param)
             else:
-                res['guard'] = p.expand(guards[0][1])
+                # consecutive `if <test on options>: raise` statements are one guard: options are rejected when any fires
+                tests = []
+                for gv in guards:
+                    t = p.expand(gv[1])
+                    if dump(t) not in [dump(x) for x in tests]:
+                        tests.append(t)
+                res['guard_tests'] = tests
+                res['guard'] = tests[0] if len(tests) == 1 else ast.BoolOp(op=ast.Or(), values=tests)
                 res['line'] = guards[0][3]
     if n_super == 0:
         res['problems'].append('super().__init__ is never called')
     if res['guard'] is not None:
-        gd = dump(res['guard'])
-        raising = [p for p in pe.paths if p.exit[0] == 'raise'
-                   and p.index_of(lambda ev: ev[0] == 'expr' and super_init_call(ev[1])) is None
-                   and any(ev[0] == 'cond' and ev[2] and dump(p.expand(ev[1])) == gd for ev in p.events)]
-        if not raising:
-            res['problems'].append('the options test does not lead to a raise before super().__init__')
-        elif not all(is_value_error(p.exit[1]) for p in raising):
-            res['problems'].append('invalid options raise something other than ValueError')
+        for gt in res['guard_tests']:
+            gd = dump(gt)
+            raising = [p for p in pe.paths if p.exit[0] == 'raise'
+                       and p.index_of(lambda ev: ev[0] == 'expr' and super_init_call(ev[1])) is None
+                       and p.events and p.events[-1][0] == 'cond' and p.events[-1][2] and dump(p.expand(p.events[-1][1])) == gd]
+            if not raising:
+                res['problems'].append('the options test `%s` does not lead to a raise before super().__init__' % ast.unparse(gt))
+            elif not all(is_value_error(p.exit[1]) for p in raising):
+                res['problems'].append('invalid options raise something other than ValueError')
         # evaluate the guard over the option enum
         dflt = defaults_of(fn).get(opt_param)
         enum = None
